@@ -20,5 +20,7 @@ func init() {
 			ruleCDPure(c)
 			ruleLKReent(c)
 			ruleALBuf(c)
+			ruleLKPair(c)
+			ruleALFinal(c)
 		})
 }
